@@ -13,6 +13,7 @@ from .. import pse
 BEHAVIOURS = ["conn-error", "timeout-exc", "http-500", "json-invalid", "json-null", "json-list", "json-no-tag",
               "tag:v99.0.0", "tag:99.0.0", "tag:0.0.1", "tag:99.0.0rc1", "tag:99.0.0.dev1", "tag:garbage", "tag:"]
 HANG = 10 ** 9
+LATENCIES = [0, 300, 900, 2500, 4000, 60000]
 
 
 def make_get(behaviour, on_call):
@@ -58,7 +59,7 @@ def model(sym):
         import ascmhl.cli.ascmhl_debug as CLI
     behaviour = sym.choose("server_behaviour", BEHAVIOURS)
     hang = sym.flag("server_never_answers")
-    L = HANG if hang else sym.int("response_latency_ms", 0, 60000)
+    L = HANG if hang else sym.choose("response_latency_ms", LATENCIES)
     D = sym.int("command_duration_ms", 0, 5000)
     st = {"ctx": "main", "gets_main": 0, "gets_checker": 0, "prints_main": [], "prints_checker": [], "joins": [], "delay": 0,
           "visible": False, "written": [], "reads": 0}
@@ -119,7 +120,6 @@ def model(sym):
     try:
         spy = Spy()
         pse.require(st.get("started") == 1, "thread-started-once", str(st.get("started")))
-        pse.require(spy.daemon is True, "checker-thread-is-daemon", "daemon=%r: a hanging request would keep the process alive at exit" % spy.daemon)
         # checker context: what the thread does whenever it gets to run (an uncaught exception only kills the thread)
         st["ctx"] = "checker"
         try:
@@ -136,9 +136,13 @@ def model(sym):
             raised = "%s: %s" % (type(ex).__name__, ex)
         tag = "server %s%s" % (behaviour, " (never answers)" if hang else "")
         pse.require(raised is None, "result-callback-raises", "%s: %s" % (tag, raised))
-        pse.require(st["gets_main"] == 0, "request-on-main-thread", tag)
-        pse.require(all(t is not None for t in st["joins"]), "join-without-timeout", tag)
-        pse.require(truth(st["delay"] <= 1000), "termination-delayed-more-than-1s", tag)
+        pse.require(st["gets_main"] == 0 or truth(st["delay"] <= 1000), "termination-delayed-more-than-1s", tag + " (request on the main thread)")
+        # the interpreter waits for non-daemon threads at exit
+        total = st["delay"]
+        if not spy.daemon and not st["visible"]:
+            total = total + (L - D - st["delay"])
+        pse.require(truth(total <= 1000), "termination-delayed-more-than-1s",
+                    "%s: join timeouts %s, daemon %s" % (tag, st["joins"], spy.daemon))
         pse.require(len(st["prints_main"]) <= 1, "more-than-one-notice", str(st["prints_main"]))
         for p in st["prints_main"]:
             pse.require("update" in p.lower(), "unexpected-output", p)
@@ -166,9 +170,16 @@ if cfg["tool"] == "ascmhl":
 else:
     from ascmhl.cli.ascmhl_debug import mhldebugtool_cli as cli
     argv = ["hash", "-h", "md5", os.path.join(cfg["dir"], "f.txt")]
+import ascmhl.commands as C
+if cfg["tool"] == "ascmhl":
+    CliRunner().invoke(C.create, [cfg["dir"], "-h", "md5"])   # a sealed folder, so that `info` succeeds and the result callback runs
+bare = CliRunner(mix_stderr=False).invoke(getattr(C, argv[0]), argv[1:])   # the command itself, outside the group: no update check
+t0 = time.time()
 res = CliRunner(mix_stderr=False).invoke(cli, argv)
-print("RESULT " + json.dumps({"exit": res.exit_code, "stdout": res.stdout, "t_cmd": time.time() - t0,
-                              "exc": None if res.exception is None or isinstance(res.exception, SystemExit) else repr(res.exception)}))
+t1 = time.time()
+exc = lambda r: None if r.exception is None or isinstance(r.exception, SystemExit) else repr(r.exception)
+print("RESULT " + json.dumps({"exit": res.exit_code, "stdout": res.stdout, "t_cmd": t1 - t0, "exc": exc(res),
+                              "bare_exit": bare.exit_code, "bare_stdout": bare.stdout, "bare_exc": exc(bare)}))
 sys.stdout.flush()
 '''
 
@@ -190,24 +201,25 @@ def real(sym):
     tool = sym.choose("tool", ["ascmhl", "ascmhl-debug"])
     behaviour = sym.choose("server_behaviour", BEHAVIOURS)
     hang = sym.flag("server_never_answers")
-    L = sym.int("response_latency_ms", 0, 60000) if not hang else HANG
+    L = sym.choose("response_latency_ms", LATENCIES) if not hang else HANG
     sym.int("command_duration_ms", 0, 5000)
     sym.int("write_lands_before_read", 0, 6)
     d = tempfile.mkdtemp(prefix="mhlverif-c20-")
     try:
         open(os.path.join(d, "f.txt"), "w").write("x")
-        base = run_real({"tool": tool, "behaviour": "conn-error", "latency_s": 0, "dir": d})
+        base = run_real({"tool": tool, "behaviour": "conn-error", "latency_s": 0, "dir": d})  # timing reference only
         lat = 20.0 if hang else min(L, 4000) / 1000.0
         got = run_real({"tool": tool, "behaviour": behaviour, "latency_s": lat, "dir": d})
         tag = "server %s latency %.1fs%s" % (behaviour, lat, " (hang)" if hang else "")
-        pse.require(got["exit"] == base["exit"] and got["returncode"] == 0, "exit-code-changed", "%s: %r vs %r" % (tag, got.get("exit"), base.get("exit")))
-        pse.require(got.get("exc") == base.get("exc"), "result-callback-raises", "%s: %s" % (tag, got.get("exc")))
-        extra = got["stdout"][len(base["stdout"]):] if got["stdout"].startswith(base["stdout"]) else None
-        pse.require(extra is not None, "stdout-changed", "%s: %r vs %r" % (tag, got["stdout"][-200:], base["stdout"][-200:]))
+        pse.require(got.get("exit") is not None, "command-did-not-finish", "%s: %s" % (tag, str(got)[:300]))
+        pse.require(got["exc"] == got["bare_exc"], "result-callback-raises", "%s: %s" % (tag, got.get("exc")))
+        pse.require(got["exit"] == got["bare_exit"] and got["returncode"] == 0, "exit-code-changed", "%s: %r vs %r" % (tag, got.get("exit"), got.get("bare_exit")))
+        extra = got["stdout"][len(got["bare_stdout"]):] if got["stdout"].startswith(got["bare_stdout"]) else None
+        pse.require(extra is not None, "stdout-changed", "%s: %r vs %r" % (tag, got["stdout"][-200:], got["bare_stdout"][-200:]))
         lines = [l for l in extra.split("\n") if l.strip()]
         pse.require(len(lines) <= 1 and all("update" in l.lower() for l in lines), "unexpected-output", "%s: %r" % (tag, lines))
-        pse.require(got["t_cmd"] - base["t_cmd"] <= 1.6, "termination-delayed-more-than-1s", "%s: command took %.2fs vs %.2fs" % (tag, got["t_cmd"], base["t_cmd"]))
-        pse.require(got["wall"] - base["wall"] <= 2.2, "process-exit-delayed", "%s: process took %.2fs vs %.2fs" % (tag, got["wall"], base["wall"]))
+        pse.require(got["t_cmd"] <= 1.6, "termination-delayed-more-than-1s", "%s: command took %.2fs" % (tag, got["t_cmd"]))
+        pse.require(got["wall"] - base["wall"] <= 2.2, "termination-delayed-more-than-1s", "%s: process took %.2fs vs %.2fs" % (tag, got["wall"], base["wall"]))
     finally:
         import shutil
         shutil.rmtree(d, ignore_errors=True)
@@ -229,7 +241,7 @@ LEVEL_NOTE = ("Concurrency is decided on a bounded model only: Thread.start does
 def harnesses(tier):
     return [Harness("c20-updater", fn, mode="unit", frontier=5, budget_s=900, conformance=3,
                     what="Updater.__init__/run/_get_latest_version/needs_update and the result callbacks of both CLI groups against 14 server behaviours "
-                         "x symbolic latency (0-60 s or never) x symbolic command duration x symbolic point at which a late write becomes visible",
-                    bounds={"behaviours": BEHAVIOURS, "latency": "0..60000 ms or never", "command duration": "0..5000 ms", "schedule": "write visible after 0..6 reads or never"},
+                         "x latency (6 values from 0 to 60 s, or never) x symbolic command duration x symbolic point at which a late write becomes visible",
+                    bounds={"behaviours": BEHAVIOURS, "latency": "one of %s ms or never" % LATENCIES, "command duration": "0..5000 ms", "schedule": "write visible after 0..6 reads or never"},
                     outside=["real thread scheduling, sockets, DNS, TLS", "wall-clock jitter (replays allow 0.6 s slack)"],
                     stubs=["threading.Thread.start/join, requests.get, click.secho: updater model"])]
